@@ -15,7 +15,8 @@ struct rop { int kind; };
 static struct wop WS[MAXOPS];
 static struct rop RS[MAXOPS];
 static int nw, nr, wlen_script, rlen_script;
-static const size_t WLENS[] = { 1, 2000, 4083, 5, 0 };
+static size_t WLENS[] = { 1, 2000, 4083, 5, 0 };
+static int ring_S = 4083;     /* requested ring size; 9000 gives a ring of three pages (not a power of two) */
 static int nwlens;
 
 /* oracle state (shared between the coroutines, part of the state key) */
@@ -27,7 +28,7 @@ static int read_early[MAXOPS];           /* chunk i was returned before write i 
 static int rel_stores, acq_loads, bad_order;
 static struct ring *R;
 static int nosem, npos_used, stale_both;
-static unsigned char wbuf[8192], rbuf[8192];
+static unsigned char wbuf[16384], rbuf[16384];
 
 static void atomic_hook(const volatile void *a, int is_store, int mo)
 {
@@ -155,7 +156,8 @@ static void run(void)
 	uint32_t plist[8], p;
 
 	nosem = vp_choose(2, "semaphore/none");
-	R = ring_get(4083, (nosem ? QB_RB_FLAG_NO_SEMAPHORE : 0) | QB_RB_FLAG_SHARED_THREAD);
+	WLENS[1] = (size_t)ring_S / 2 - 42; WLENS[2] = (size_t)ring_S;      /* two of the middle length fill the ring */
+	R = ring_get((size_t)ring_S, (nosem ? QB_RB_FLAG_NO_SEMAPHORE : 0) | QB_RB_FLAG_SHARED_THREAD);
 	plist[np++] = 0; plist[np++] = R->W - 1; plist[np++] = R->W - 2; plist[np++] = R->W - 3; plist[np++] = R->W - 500;
 	p = plist[vp_choose(npos_used < np ? npos_used : np, "start position")];
 	stale = (stale_both ? vp_choose(2, "stale content") : 0) ? -1 : PAT_LIVE;
@@ -227,6 +229,7 @@ static void init(void)
 	nwlens = (int)vp_param("writer_lengths", 3, 5);
 	npos_used = (int)vp_param("start_positions", 2, 5);
 	stale_both = (int)vp_param("stale_both", 0, 1);
+	ring_S = (int)vp_param("ring_size", 4083, 4083);
 	vp_count_name(1, "shared_memory_accesses_as_scheduling_points");
 	vp_count_name(2, "handle_field_accesses_not_scheduled");
 }
